@@ -12,7 +12,7 @@ TAGS = ['log', 'now', 'ret', 'caught']
 RULE = ('runs with 1-4 root activities (each starting with a log), some returning values (incl. falsy 0), some raising, some '
         'blocking for ever; nested `usim.run()` calls from inside activities with clock probes before/after; different start '
         'times; every fifth run is started with till=T; every scenario is a separate run() on the same thread (successful and failing runs alternate); thorough tier: '
-        '8 scenarios at a time are additionally run concurrently in 8 real threads and each trace must equal its sequential '
+        '8 scenarios at a time are additionally run concurrently in 8 real threads, and 4 at a time in threads that hand control to a seeded random other thread at every event (forced interleavings of runs and nested runs), and each trace must equal its sequential '
         'trace; non-trivial = a nested run, a returned value or an escaping exception')
 
 PROFILE = {'nested': True, 'flags': 2, 'depth': 2, 'root_ret': 0.3, 'starts': [0, 0, 1, F(1, 2), -1], 'roots': 4,
@@ -62,6 +62,67 @@ def nontrivial(impl):
                                           for e in impl['events'])
 
 
+class Baton:
+    """runs n threads one at a time; at every `point` the running thread passes control to a seeded random live thread"""
+
+    def __init__(self, n, rng):
+        self.cv = threading.Condition()
+        self.rng = rng
+        self.alive = set(range(n))
+        self.turn = 0
+        self.handovers = 0
+        self.broken = False
+
+    def _wait(self, i):
+        while self.turn != i and not self.broken:
+            if not self.cv.wait(timeout=120):
+                self.broken = True      # (a stuck partner must not hang the check: everybody runs freely from here on)
+                self.cv.notify_all()
+
+    def start(self, i):
+        with self.cv:
+            self._wait(i)
+
+    def point(self, i):
+        with self.cv:
+            if self.broken:
+                return
+            nxt = self.rng.choice(sorted(self.alive))
+            if nxt != i:
+                self.turn = nxt
+                self.handovers += 1
+                self.cv.notify_all()
+                self._wait(i)
+
+    def done(self, i):
+        with self.cv:
+            self.alive.discard(i)
+            if self.alive:
+                self.turn = self.rng.choice(sorted(self.alive))
+            self.cv.notify_all()
+
+
+def interleaved(group, rng):
+    """the scenarios of `group`, each in a thread of its own, interleaved at every event; returns the observations"""
+    baton = Baton(len(group), rng)
+    out = [None] * len(group)
+
+    def work(i, sc):
+        baton.start(i)
+        try:
+            out[i] = msuite.obs_line(dsl.run_impl(sc, on_emit=lambda: baton.point(i)))
+        except BaseException as e:   # noqa
+            out[i] = 'harness error %r' % (e,)
+        finally:
+            baton.done(i)
+    threads = [threading.Thread(target=work, args=(i, sc)) for i, sc in enumerate(group)]
+    for t in threads:
+        t.start()
+    for t in threads:
+        t.join()
+    return out, baton.handovers
+
+
 def run(tier, seed, drv, scenarios=None):
     st = msuite.Suite(PID, drv, 'C15', TAGS)
     st.res.rule = RULE
@@ -96,9 +157,38 @@ def run(tier, seed, drv, scenarios=None):
                                      'a simulation run in a thread next to 7 others differs from its sequential run',
                                      {'scenario': sc, 'threaded': True})
         st.res.count('threaded_runs', min(len(scs), 800))
+        # the same with forced interleavings: the threads hand a baton to a (seeded) random other thread at every
+        # event, so that runs - and runs nested in them - begin and end inside each other in every order
+        handovers = 0
+        for base in range(0, min(len(scs), 1600), 4):
+            group = scs[base:base + 4]
+            outs, n = interleaved(group, rng_for(seed, PID + 'baton', base))
+            handovers += n
+            for i, sc in enumerate(group):
+                st.res.evaluations += 1
+                if outs[i] != traces[base + i]:
+                    st.res.violation({'clause': 'thread-isolation'},
+                                     'a simulation whose thread alternates with %d others at every event differs from its '
+                                     'sequential run' % (len(group) - 1),
+                                     {'scenario': sc, 'threaded': True, 'group': group, 'index': i, 'baton_seed': [seed, base]})
+        st.res.count('interleaved_runs', min(len(scs), 1600))
+        st.res.count('baton_handovers', handovers)
     return st.finish()
 
 
 def replay(data, drv):
-    sc = msuite.fix_fractions(data.get('scenario') or data['case']['scenario'])
+    case = data if data.get('scenario') else data['case']
+    if case.get('group'):
+        # a thread-isolation failure: the same group, each scenario alone and then interleaved with the same baton choices
+        st = msuite.Suite(PID, drv, 'C15', TAGS)
+        group = [msuite.fix_fractions(g) for g in case['group']]
+        alone = [msuite.obs_line(dsl.run_impl(sc)) for sc in group]
+        outs, _ = interleaved(group, rng_for(case['baton_seed'][0], PID + 'baton', case['baton_seed'][1]))
+        for i, sc in enumerate(group):
+            st.res.evaluations += 1
+            if outs[i] != alone[i]:
+                st.res.violation({'clause': 'thread-isolation'}, 'a simulation whose thread alternates with others at every event '
+                                 'differs from its sequential run', dict(case, scenario=sc, index=i))
+        return st.finish()
+    sc = msuite.fix_fractions(case['scenario'])
     return run('quick', 0, drv, scenarios=[sc])
